@@ -121,6 +121,18 @@ fn digest(resp: &str) -> String {
     format!("ok n={} h={} s={} x={}", l.len(), h, sm, x)
 }
 
+/// a freshly constructed projection object, through every public way of making one in turn: `new()`, the `Default` trait
+fn fresh_projection() -> Option<a5::projections::dodecahedron::DodecahedronProjection> {
+    use a5::projections::dodecahedron::DodecahedronProjection;
+    use std::sync::atomic::{AtomicUsize, Ordering};
+    static TURN: AtomicUsize = AtomicUsize::new(0);
+    if TURN.fetch_add(1, Ordering::Relaxed) % 2 == 0 {
+        DodecahedronProjection::new().ok()
+    } else {
+        Some(DodecahedronProjection::default())
+    }
+}
+
 pub fn handle_line(line: &str) -> Option<String> {
     let toks: Vec<&str> = line.split_whitespace().collect();
     if toks.is_empty() {
@@ -346,7 +358,7 @@ pub fn float_ops(op: &str, a: &[&str]) -> Option<String> {
             if o > 255 {
                 return None;
             }
-            let mut d = match DodecahedronProjection::new() { Ok(d) => d, Err(_) => return Some("err new".to_string()) };
+            let mut d = match fresh_projection() { Some(d) => d, None => return Some("err new".to_string()) };
             show(d.forward(sp, o as u8), |f| format!("{} {}", show_f64(f.x()), show_f64(f.y())))
         }
         ("dodeca_inverse_new", 3) => {
@@ -355,7 +367,7 @@ pub fn float_ops(op: &str, a: &[&str]) -> Option<String> {
             if o > 255 {
                 return None;
             }
-            let mut d = match DodecahedronProjection::new() { Ok(d) => d, Err(_) => return Some("err new".to_string()) };
+            let mut d = match fresh_projection() { Some(d) => d, None => return Some("err new".to_string()) };
             show(d.inverse(f, o as u8), |s| {
                 format!("{} {}", show_f64(s.theta().get()), show_f64(s.phi().get()))
             })
